@@ -32,7 +32,7 @@ def fam_defects():
 
 def c01_vectors(tier):
     v = [cw.REF, cw.opts(inline_functions=True), cw.opts(inline_functions=True, remove_labels=True, compact=True),
-         cw.opts(use_push_pop_functions=True)]
+         cw.opts(use_push_pop_functions=True), cw.opts(inline_functions=True, tail_call_optimization=True)]
     if tier == "thorough":
         v += [cw.opts(tail_call_optimization=True), cw.opts(inline_functions=True, use_push_pop_functions=True),
               cw.opts(remove_labels=True, compact=True, use_push_pop_functions=True),
